@@ -260,11 +260,23 @@ def w_poppred(case):
 
 # ---------------------------------------------------------- coded posterior models
 
-def coded_posterior(n_chains, n_draws, inds, pad=False, offset=0):
-    """Every entry encodes (parameter, chain, draw, individual)."""
+def coded_posterior(n_chains, n_draws, inds, pad=False, offset=0,
+                    pooled_sigma=False):
+    """Every entry encodes (parameter, chain, draw, individual). With
+    pooled_sigma the error parameter is a population-level variable (chain, draw),
+    as in a hierarchical fit with a pooled dimension."""
     names = ['q0', 'Sigma']
     data = {}
     for p, n in enumerate(names):
+        if pooled_sigma and n == 'Sigma':
+            arr = np.empty((n_chains, n_draws + (1 if pad else 0)))
+            for c in range(n_chains):
+                for d in range(n_draws):
+                    arr[c, d] = offset + 1000 * (p + 1) + 100 * c + 10 * d + 9
+            if pad:
+                arr[:, n_draws] = np.nan
+            data[n] = (('chain', 'draw'), arr)
+            continue
         arr = np.empty((n_chains, n_draws + (1 if pad else 0), len(inds)))
         for c in range(n_chains):
             for d in range(n_draws):
@@ -303,7 +315,8 @@ def w_posterior(case):
     ts = np.sort(times)
     answers = case['answers']         # one row index per sample
     viol = []
-    ds = coded_posterior(nc, nd, inds, pad=case['pad'])
+    ds = coded_posterior(nc, nd, inds, pad=case['pad'],
+                         pooled_sigma=case.get('pooled_sigma', False))
     ppm = chi.PosteriorPredictiveModel(pred_model(1), ds)
     res = []
     for zval in (0.0, 1.0):
@@ -348,8 +361,11 @@ def w_posterior(case):
         a, b = decode(q[0]), decode(sg[0])
         row = answers[s]
         want = {'chain': row // nd, 'draw': row % nd, 'ind': i_ind}
+        want_b = dict(want)
+        if case.get('pooled_sigma'):
+            want_b['ind'] = 9
         if (a['p'], b['p']) != (0, 1) or any(
-                a[k_] != want[k_] or b[k_] != want[k_] for k_ in want):
+                a[k_] != want[k_] or b[k_] != want_b[k_] for k_ in want):
             viol.append({
                 'sub': 'joint_row', 'message': 'a posterior predictive sample does '
                 'not use one joint posterior draw (same chain and draw for every '
@@ -518,10 +534,12 @@ def build(tier, seed):
             for ind in ('a', 'b'):
                 for ns in (1, 2):
                     for ans in itertools.product(range(rows), repeat=ns):
-                        post.append({'n_chains': nc, 'n_draws': nd,
-                                     'inds': ['a', 'b'], 'individual': ind,
-                                     'n_samples': ns, 'times': perms[3],
-                                     'answers': list(ans), 'pad': pad})
+                        for pooled in (False, True):
+                            post.append({'n_chains': nc, 'n_draws': nd,
+                                         'inds': ['a', 'b'], 'individual': ind,
+                                         'n_samples': ns, 'times': perms[3],
+                                         'answers': list(ans), 'pad': pad,
+                                         'pooled_sigma': pooled})
     prior = [{'n_samples': ns, 'times': p, 'seed': sd}
              for ns in (1, 2, 3) for p in perms[:3] for sd in (3, 8)]
     pam = []
